@@ -1255,7 +1255,7 @@ impl Interpreter {
                                 self.active_vm = Some(Box::new(vm));
                             } else {
                                 let guarded = Guarded::from_value(error_msg, &self.heap);
-                                return Err(JsError::thrown(guarded));
+                                return Err(self.materialize_thrown_error(JsError::thrown(guarded)));
                             }
                         }
                     }
@@ -1301,7 +1301,7 @@ impl Interpreter {
                                     self.active_vm = Some(Box::new(vm));
                                 } else {
                                     let guarded = Guarded::from_value(result_value, &self.heap);
-                                    return Err(JsError::thrown(guarded));
+                                    return Err(self.materialize_thrown_error(JsError::thrown(guarded)));
                                 }
                             }
                             PromiseStatus::Pending => {
